@@ -29,7 +29,118 @@ fn meta(text: &str) -> MetadataWrapper {
     MetadataWrapper::Link(LinkMetadataBuilder::new().name(format!("n-{}", text)).byproducts(bp).build().unwrap())
 }
 
+/// the text in EVERY string-typed field of a link and of a layout (names, artifact paths built both through
+/// `VirtualTargetPath::new` and through `From<&str>`, rule patterns and prefixes, command words, byproducts, environment, readme)
+fn rich(text: &str, via_new: bool) -> Vec<(&'static str, MetadataWrapper)> {
+    use in_toto::models::{rule::{Artifact, ArtifactRule}, step::Step, inspection::Inspection, LayoutMetadataBuilder, VirtualTargetPath};
+    let vtp = |s: String| -> VirtualTargetPath { if via_new { VirtualTargetPath::new(s).unwrap() } else { VirtualTargetPath::from(s.as_str()) } };
+    let mut mats = std::collections::BTreeMap::new();
+    let mut td = in_toto::models::TargetDescription::new();
+    td.insert(in_toto::crypto::HashAlgorithm::Sha256, in_toto::crypto::HashValue::new(vec![7; 32]));
+    mats.insert(vtp(format!("m/{}", text)), td.clone());
+    let mut prods = std::collections::BTreeMap::new();
+    prods.insert(vtp(format!("{}/p", text)), td);
+    let mut env = std::collections::BTreeMap::new();
+    env.insert(format!("K{}", text), format!("V{}", text));
+    let link = LinkMetadataBuilder::new().name(format!("n-{}", text)).materials(mats).products(prods).env(Some(env))
+        .command(cmd(&["sh", text])).byproducts(ByProducts::new().set_stdout(text.to_string()).set_stderr(format!("e:{}", text)).set_return_value(0)
+            .set_other_field(format!("o{}", text), text.to_string())).build().unwrap();
+    let rules = vec![ArtifactRule::Create(vtp(format!("c{}", text))), ArtifactRule::Disallow(vtp(text.to_string())),
+        ArtifactRule::Match { pattern: vtp(format!("{}*", text)), in_src: Some(format!("s{}", text)), with: Artifact::Products, in_dst: Some(format!("d{}", text)), from: format!("n-{}", text) }];
+    let k = key(2);
+    let step = Step::new(&format!("n-{}", text)).add_key(k.key_id().clone()).threshold(1)
+        .add_expected_material(rules[0].clone()).add_expected_product(rules[2].clone()).expected_command(cmd(&["sh", text]));
+    let insp = Inspection::new(&format!("i-{}", text)).run(cmd(&["sh", "-c", text])).add_expected_product(rules[1].clone());
+    let layout = LayoutMetadataBuilder::new().expires(chrono::Utc::now() + chrono::Duration::days(3)).readme(text.to_string())
+        .add_step(step).add_inspect(insp).add_key(k.public().clone()).build().unwrap();
+    vec![("link", MetadataWrapper::Link(link)), ("layout", MetadataWrapper::Layout(layout))]
+}
+
+/// optional parts in each of their states: environment absent / empty / filled, byproducts with and without each member,
+/// empty and filled collections, all seven rule kinds with all four IN-combinations of MATCH, thresholds 0/1/3, no keys
+fn shapes() -> Vec<(String, MetadataWrapper)> {
+    use in_toto::models::{rule::{Artifact, ArtifactRule}, step::Step, inspection::Inspection, LayoutMetadataBuilder, VirtualTargetPath};
+    let mut out = vec![];
+    let p = |s: &str| VirtualTargetPath::new(s.to_string()).unwrap();
+    let envs: Vec<(&str, Option<std::collections::BTreeMap<String, String>>)> = vec![("env-absent", None), ("env-empty", Some(Default::default())),
+        ("env-filled", Some([("A".to_string(), "1".to_string()), ("".to_string(), "".to_string())].into_iter().collect()))];
+    let bps: Vec<(&str, ByProducts)> = vec![("bp-empty", ByProducts::new()), ("bp-rv-only", ByProducts::new().set_return_value(-1)),
+        ("bp-streams-only", ByProducts::new().set_stdout(String::new()).set_stderr("e".into())),
+        ("bp-all+other", ByProducts::new().set_return_value(255).set_stdout("o".into()).set_stderr(String::new()).set_other_field("k".into(), "v".into()))];
+    for (en, env) in &envs { for (bn, bp) in &bps { for (cn, c) in [("cmd-empty", cmd(&[])), ("cmd-words", cmd(&["a", "", "b c"]))] {
+        for (an, arts) in [("no-artifacts", vec![]), ("artifacts", vec![("a", 1u8), ("d/b", 2)])] {
+            let l = LinkMetadataBuilder::new().name("s".into()).env(env.clone()).byproducts(bp.clone()).command(c.clone())
+                .materials(artifacts(&arts)).products(artifacts(&arts)).build().unwrap();
+            out.push((format!("link/{}/{}/{}/{}", en, bn, cn, an), MetadataWrapper::Link(l)));
+        }
+    } } }
+    let mut rules = vec![ArtifactRule::Create(p("c")), ArtifactRule::Delete(p("d")), ArtifactRule::Modify(p("m")), ArtifactRule::Allow(p("*")), ArtifactRule::Require(p("r")), ArtifactRule::Disallow(p("**"))];
+    for src in [None, Some("src".to_string()), Some(String::new())] { for dst in [None, Some("dst/".to_string())] { for with in [Artifact::Materials, Artifact::Products] {
+        rules.push(ArtifactRule::Match { pattern: p("x/*"), in_src: src.clone(), with: with.clone(), in_dst: dst.clone(), from: "s".into() });
+    } } }
+    let k = key(2);
+    // the format carries whole seconds
+    let whole = { use chrono::TimeZone; chrono::Utc.timestamp_opt(chrono::Utc::now().timestamp() + 86400, 0).unwrap() };
+    for th in [0u32, 1, 3] { for with_rules in [false, true] { for with_keys in [false, true] {
+        let mut st = Step::new("s").threshold(th).expected_command(cmd(if with_rules { &["x"] } else { &[] }));
+        let mut ins = Inspection::new("i").run(cmd(&["true"]));
+        if with_keys { st = st.add_key(k.key_id().clone()); }
+        if with_rules { for rl in &rules { st = st.add_expected_material(rl.clone()).add_expected_product(rl.clone()); ins = ins.add_expected_product(rl.clone()); } }
+        let mut b = LayoutMetadataBuilder::new().expires(whole);
+        if with_rules { b = b.readme("r".into()).add_step(st.clone()).add_step(Step::new("t")).add_inspect(ins); } else { b = b.add_step(st); }
+        if with_keys { b = b.add_key(k.public().clone()); }
+        out.push((format!("layout/threshold-{}/rules-{}/keys-{}", th, with_rules, with_keys), MetadataWrapper::Layout(b.build().unwrap())));
+    } } }
+    out.push(("layout/empty".into(), MetadataWrapper::Layout(LayoutMetadataBuilder::new().expires(whole).build().unwrap())));
+    out
+}
+
 pub fn run_c09(r: &mut Report) {
+    // every shape of optional content: signed, written, read back: verifies AND is the same metadata
+    {
+        let k = key(1);
+        let mut n = 0; let mut bad = 0;
+        for (id, md) in shapes() {
+            for pretty in [false, true] {
+                let mb = Metablock::new(md.clone(), &[&k]).unwrap();
+                let wire = if pretty { serde_json::to_string_pretty(&mb).unwrap() } else { serde_json::to_string(&mb).unwrap() };
+                let back: Result<Metablock, _> = serde_json::from_str(&wire);
+                let verified = match &back { Ok(b) => matches!(no_panic(|| b.verify(1, [k.public()])), Ok(Ok(_))), Err(_) => false };
+                let same = matches!(&back, Ok(b) if b.metadata == md);
+                n += 1;
+                if !(verified && same) {
+                    bad += 1;
+                    r.case("shape-sign-wire-verify", json!({"shape": id, "pretty": pretty}), "verifies with threshold 1 and carries the same metadata",
+                           format!("verified={} same_metadata={} parse={:?}", verified, same, back.as_ref().map(|_| "ok").map_err(|e| e.to_string())), false);
+                }
+            }
+        }
+        r.case("shape-matrix", json!({"documents": n}), "all verify and are unchanged", format!("{} failures", bad), bad == 0 && n > 100);
+    }
+    // every string field kind x every text class x both ways to build a path x both constructors x both JSON layouts (one key type)
+    {
+        let k = key(1);
+        for t in texts() {
+            for via_new in [true, false] {
+                for (kind, md) in rich(t, via_new) {
+                    for path in ["new", "builder"] {
+                        let mb = if path == "new" { Metablock::new(md.clone(), &[&k]).unwrap() }
+                                 else { MetablockBuilder::from_metadata(md.clone().into_trait()).sign(&[&k]).unwrap().build() };
+                        for pretty in [false, true] {
+                            let wire = if pretty { serde_json::to_string_pretty(&mb).unwrap() } else { serde_json::to_string(&mb).unwrap() };
+                            let back: Result<Metablock, _> = serde_json::from_str(&wire);
+                            let ok = match &back { Ok(b) => matches!(no_panic(|| b.verify(1, [k.public()])), Ok(Ok(_))), Err(_) => false };
+                            if !ok || (path == "new" && !pretty) {
+                                r.case("sign-wire-verify-all-fields", json!({"metadata": kind, "text": t, "paths_via": if via_new { "VirtualTargetPath::new" } else { "From<&str>" }, "path": path, "pretty": pretty}),
+                                       "verifies with threshold 1",
+                                       format!("{:?}", back.as_ref().map(|b| b.verify(1, [k.public()]).map(|_| "ok").map_err(|e| e.to_string())).map_err(|e| e.to_string())), ok);
+                            }
+                        }
+                    }
+                }
+            }
+        }
+    }
     let ks = keys();
     for (kn, k) in &ks {
         for t in texts() {
@@ -73,7 +184,11 @@ pub fn run_c11(r: &mut Report) {
     // the signed bytes must equal the OLPC canonical JSON (only backslash and quote escaped)
     fn olpc_string(s: &str) -> String { format!("\"{}\"", s.replace('\\', "\\\\").replace('"', "\\\"")) }
     let k = key(1);
-    for t in texts() {
+    // every printable ASCII character, DEL, and representatives of the Latin-1, BMP, line-separator and astral ranges on their own
+    let mut sweep: Vec<String> = (0x20u32..=0x7f).filter_map(char::from_u32).map(|c| format!("x{}y", c)).collect();
+    for c in ['\u{80}', '\u{9f}', '\u{a0}', '\u{ff}', '\u{2028}', '\u{2029}', '\u{d7ff}', '\u{e000}', '\u{fffd}', '\u{ffff}', '\u{10000}', '\u{10ffff}'] { sweep.push(format!("x{}y", c)); }
+    let all: Vec<String> = texts().into_iter().map(|t| t.to_string()).chain(sweep.into_iter()).collect();
+    for t in all.iter().map(|t| t.as_str()) {
         // reference bytes for the link built by meta(t): build them from the canonical JSON by re-encoding every string token
         let md = meta(t);
         let mb = Metablock::new(md.clone(), &[&k]).unwrap();
